@@ -44,10 +44,11 @@ let run_dirty () =
   let (d, _) = RuleDecision.check_regex RuleDecision.dirty_vst p f in
   out_decision (Some d)
 
-(* frag: units:str -> <in_fragment 0/1> <recognises without u 0/1> <recognises with u 0/1>
+(* frag: units:str -> <in_fragment without u> <in_fragment with u> <recognises without u> <recognises with u>  (0/1 each)
    (the recogniser of the grammar fragment, Regex/FragParser.v) *)
 let run_frag () =
   let s = read_str () in
-  out_bool (FragParser.in_fragment s); out_bool (FragParser.recognises false s); out_bool (FragParser.recognises true s)
+  out_bool (FragParser.in_fragment false s); out_bool (FragParser.in_fragment true s);
+  out_bool (FragParser.recognises false s); out_bool (FragParser.recognises true s)
 
 let () = main [("seq", run_seq); ("rule", run_rule); ("flags", run_flags); ("dirty", run_dirty); ("frag", run_frag)]
